@@ -16,6 +16,7 @@ import (
 	"time"
 
 	"github.com/a-h/templ/cmd/templ/generatecmd"
+	templruntime "github.com/a-h/templ/runtime"
 	"github.com/fsnotify/fsnotify"
 
 	"verif/batch"
@@ -90,6 +91,13 @@ func (p *Project) Put(i int, src string) (generatecmd.GenerateResult, error) {
 func (p *Project) GoFile(i int) string {
 	b, _ := os.ReadFile(filepath.Join(p.Dir, fmt.Sprintf("p%d_templ.go", i)))
 	return string(b)
+}
+
+// TxtFile returns the development text file of program i as it is on disk (the file the compiled
+// program reads its static text from in development mode).
+func (p *Project) TxtFile(i int) (string, error) {
+	b, err := os.ReadFile(templruntime.GetDevModeTextFileName(filepath.Join(p.Dir, fmt.Sprintf("p%d.templ", i))))
+	return string(b), err
 }
 
 // Build compiles the directory.
